@@ -371,3 +371,9 @@ class CrossRecurrencePlot(RecurrencePlot):
         raise NotImplementedError(
             "Line distributions are not yet "
             "available for cross-recurrence plots")
+
+    def twins(self, min_dist=7):
+        """Not implemented yet"""
+        raise NotImplementedError(
+            "Twins are not yet "
+            "available for cross-recurrence plots")
